@@ -70,14 +70,14 @@ Qed.
 
 (* ---- Fenwick tree (SUM) over an abstract array, all sizes ---- *)
 (* built tree answers every range with the exact range sum *)
-Theorem C28_fenwick_build : forall vs lo hi, lo <= hi -> hi < length vs ->
+Theorem C28_rollup_fenwick_build_partial : forall vs lo hi, lo <= hi -> hi < length vs ->
   fw_range (fw_build vs) lo hi =
   (sum_to (fun i => nth i vs 0%Z) (hi + 1) - sum_to (fun i => nth i vs 0%Z) lo)%Z.
 Proof. intros vs lo hi H1 H2. eapply fw_range_spec; eauto. apply fw_build_inv. Qed.
 
 (* a point update (Fenwick::add) followed by any range query = the range sum over the updated
    array; the invariant is preserved, so this holds after every sequence of updates *)
-Theorem C28_fenwick_update : forall t a n pos d, fw_inv t a n -> pos < n ->
+Theorem C28_rollup_fenwick_update_partial : forall t a n pos d, fw_inv t a n -> pos < n ->
   fw_inv (fw_add t pos d) (addf a pos d) n /\
   forall lo hi, lo <= hi -> hi < n ->
     fw_range (fw_add t pos d) lo hi = (sum_to (addf a pos d) (hi + 1) - sum_to (addf a pos d) lo)%Z.
@@ -90,9 +90,111 @@ Example C28_fenwick_nonvacuous :
   fw_range (fw_add (fw_build [3; 1; 4; 1; 5; 9; 2]%Z) 2 10%Z) 1 5 = 30%Z.
 Proof. vm_compute. reflexivity. Qed.
 
+(* ---- per-chain suffix folds (chain encoding roll-ups), all chain lengths, all four monoids ---- *)
+Theorem C28_monoid_laws : forall o,
+  (forall a b c, combine o a (combine o b c) = combine o (combine o a b) c) /\
+  (forall a b, combine o a b = combine o b a) /\
+  (forall a, combine o RNull a = a /\ combine o a RNull = a) /\
+  (forall z, combine o (identity o) (RInt z) = RInt z).
+Proof.
+  intros o. repeat split; intros.
+  - apply combine_assoc. - apply combine_comm. - apply combine_null_r. - apply combine_identity_l.
+Qed.
+
+(* set_measure: cell i of a chain's table is the fold of the chain's values from position i on *)
+Theorem C28_rollup_chain_suffix_build_partial : forall o vals i, i <= length vals ->
+  nth i (suffix_folds o vals) RNull = fold_vals o (skipn i vals).
+Proof. exact suffix_folds_spec. Qed.
+
+(* update_measure: refolding cells pos..0 from the updated measure gives exactly the table a
+   rebuild with the updated measure produces (update commutes with rebuild, chain encoding) *)
+Theorem C28_update_commutes_chain_suffix_partial : forall o chain m suf pos,
+  let vals := map (fun v => rv_of (nth v m None) (identity o)) chain in
+  pos < length chain ->
+  length suf = S (length chain) ->
+  (forall i, pos < i -> i <= length chain -> nth i suf RNull = nth i (suffix_folds o vals) RNull) ->
+  refold o chain m suf pos = suffix_folds o vals.
+Proof. exact refold_spec. Qed.
+
+Example C28_chain_suffix_nonvacuous :
+  let chain := [2; 0; 1] in
+  let m := [Some 5; Some 7; Some 1]%Z in
+  let m' := [Some 5; Some 7; Some 9]%Z in
+  let vals mm := map (fun v => rv_of (nth v mm None) (identity OMin)) chain in
+  suffix_folds OMin (vals m) = [RInt 1; RInt 5; RInt 7; RNull]%Z /\
+  refold OMin chain m' (suffix_folds OMin (vals m)) 0 = suffix_folds OMin (vals m') /\
+  suffix_folds OMin (vals m') = [RInt 5; RInt 5; RInt 7; RNull]%Z.
+Proof. vm_compute. repeat split; reflexivity. Qed.
+
+(* ================= what is NOT carried by a theorem (visible, unproved) ================= *)
+Definition topo_ok (p : poset) : Prop :=
+  NoDup (ptopo p) /\ (forall v, In v (ptopo p) <-> v < pn p) /\
+  forall c q, In q (parents p c) -> index_of c (ptopo p) < index_of q (ptopo p).
+
+(* Poset::from_edges produces a well-formed poset exactly on acyclic inputs *)
+Definition C28_from_edges_wf_full : Prop :=
+  forall n edges, (forall c q, In (c, q) edges -> c < n /\ q < n) ->
+  match from_edges n edges with
+  | inl p => (exists rk, wf_poset p rk) /\ topo_ok p /\ pn p = n /\
+             forall c q, In q (parents p c) <-> In (c, q) edges
+  | inr _ => ~ exists rk : nat -> nat, forall c q, In (c, q) edges -> rk c < rk q
+  end.
+
+(* subsumption / descendants / count under EVERY encoding the probe can select or that can be forced *)
+Definition C28_subsumes_desc_full : Prop :=
+  forall p rk f en m r, wf_poset p rk -> topo_ok p -> build_enc p f = inl en ->
+  forall x y, x < pn p -> y < pn p ->
+  subsumes (mk_index p en m r) x y = spec_subsumes p x y /\
+  NoDup (descendants (mk_index p en m r) y) /\
+  (forall z, In z (descendants (mk_index p en m r) y) <-> In z (spec_desc p y)) /\
+  descendant_count (mk_index p en m r) y = length (spec_desc p y).
+
+(* chains partition the nodes *)
+Definition C28_chain_partition_full : Prop :=
+  forall p rk, wf_poset p rk -> topo_ok p ->
+  NoDup (concat (decompose_chains p)) /\
+  forall v, In v (concat (decompose_chains p)) <-> v < pn p.
+
+(* roll-up = fold of the monoid over the brute-force descendant set, every encoding, every monoid *)
+Definition C28_rollup_full : Prop :=
+  forall p rk f en measure ops, wf_poset p rk -> topo_ok p -> build_enc p f = inl en ->
+  length measure = pn p ->
+  forall y o, y < pn p -> (o = OCount \/ In o ops) ->
+  rollup (set_measure (mk_index p en None []) measure ops) y o = Some (rollup_spec p measure y o).
+
+(* a point update lands in the state a rebuild with the updated measure would produce *)
+Definition C28_update_commutes_full : Prop :=
+  forall p rk f en measure ops node v, wf_poset p rk -> topo_ok p -> build_enc p f = inl en ->
+  length measure = pn p -> node < pn p ->
+  forall y o, y < pn p ->
+  option_map (fun ix => rollup ix y o)
+             (update_measure (set_measure (mk_index p en None []) measure ops) node v) =
+  Some (rollup (set_measure (mk_index p en None []) (upd measure node v) ops) y o).
+
+(* segment tree (MIN / MAX): build, range and point update against the abstract array *)
+Definition C28_segtree_full : Prop :=
+  forall o vals lo hi, lo <= hi -> hi < length vals ->
+  st_range (st_build vals o) lo hi = fold_vals o (firstn (hi + 1 - lo) (skipn lo vals)) /\
+  forall pos v, pos < length vals ->
+    st_range (st_set (st_build vals o) pos v) lo hi =
+    fold_vals o (firstn (hi + 1 - lo) (skipn lo (upd vals pos v))).
+
+(* LCA set = minimal common ancestors *)
+Definition C28_lca_full : Prop :=
+  forall p rk f en m r, wf_poset p rk -> topo_ok p -> build_enc p f = inl en ->
+  forall x y, x < pn p -> y < pn p ->
+  forall c, In c (lowest_common_ancestors (mk_index p en m r) x y) <-> In c (spec_lca p x y).
+
+Definition C28_full : Prop :=
+  C28_from_edges_wf_full /\ C28_subsumes_desc_full /\ C28_chain_partition_full /\
+  C28_rollup_full /\ C28_update_commutes_full /\ C28_segtree_full /\ C28_lca_full.
+
 Print Assumptions C28_spec_closure.
 Print Assumptions C28_stale_until_rebuild.
 Print Assumptions C28_nested_subsumes.
 Print Assumptions C28_nested_desc.
-Print Assumptions C28_fenwick_build.
-Print Assumptions C28_fenwick_update.
+Print Assumptions C28_rollup_fenwick_build_partial.
+Print Assumptions C28_rollup_fenwick_update_partial.
+Print Assumptions C28_monoid_laws.
+Print Assumptions C28_rollup_chain_suffix_build_partial.
+Print Assumptions C28_update_commutes_chain_suffix_partial.
